@@ -137,6 +137,36 @@ Definition ser_doc (d : sdoc) : str :=
   ser false (SEl (s2l "html") (d_html_attrs d) false
                  [SEl (s2l "head") (d_head_attrs d) false (d_head d); SEl (s2l "body") (d_body_attrs d) false (d_body d)]).
 
+(* get_title: the .string of the first <title> element, in document order, that is not part of embedded SVG / MathML
+   (the <title> of a graphic is its tooltip); "" when there is none.  .string of BeautifulSoup: the text of an only text
+   child, through chains of only children; None (here: "") otherwise. *)
+Fixpoint node_string (n : snode) : option str :=
+  match n with
+  | SText s => Some s
+  | SEl _ _ _ [c] => node_string c
+  | SEl _ _ _ _ => None
+  end.
+
+Fixpoint first_title (n : snode) : option str :=
+  match n with
+  | SText _ => None
+  | SEl name _ _ children =>
+      if is_foreign name then None
+      else if str_eqb name (s2l "title") then Some (match node_string n with Some s => s | None => [] end)
+      else (fix go (l : list snode) : option str :=
+              match l with
+              | [] => None
+              | c :: r => match first_title c with Some t => Some t | None => go r end
+              end) children
+  end.
+Fixpoint first_title_in (l : list snode) : option str :=
+  match l with
+  | [] => None
+  | c :: r => match first_title c with Some t => Some t | None => first_title_in r end
+  end.
+Definition doc_title (d : sdoc) : str :=
+  match first_title_in (d_head d ++ d_body d) with Some t => t | None => [] end.
+
 (* html_diff_render's views, given the parsed diff body of each selected kind *)
 Definition render_view (k : kind) (old new : sdoc) (title_ops : list (Z * str)) (ic dc : str) (diff_body : list snode) : str :=
   ser_doc (view_doc k old new title_ops ic dc diff_body).
